@@ -58,25 +58,43 @@ pub fn tamper_probes(cx: &DeliveryCtx, out: &mut RunOut) {
     }
 }
 
-/// C01: success only for the correct signature over the request as received.
+/// C01: success only for the correct signature over the request as received. Jurisdiction: an
+/// accepted request (a) whose presented signature is not the reference signature under the key the
+/// provider returned, or (b) that the provider never supplied a key for, or (c) that was tampered
+/// with in flight (its reference signing input differs from what was signed). An accepted request
+/// whose signature *is* right but which another rule should have refused (freshness, requirements)
+/// is that rule's property's business.
 pub fn judge_c01(cx: &DeliveryCtx, out: &mut RunOut) {
     tamper_probes(cx, out);
-    if cx.out.is_ok() {
-        match cx.expected {
-            Verdict::Accept | Verdict::Unspecified(_) => {}
-            Verdict::Refuse(r) => out.violate(
-                "C01",
-                "accept-implies-correct-signature",
-                format!(
-                    "library accepted a request the reference refuses at {} (expected signature {:?}, presented {:?}); {}",
-                    r.name(),
-                    cx.detail.expected_signature,
-                    cx.detail.presented_signature,
-                    ctx_line(cx)
-                ),
-            ),
-        }
+    if !cx.out.is_ok() {
+        return;
     }
+    let refused = match cx.expected {
+        Verdict::Refuse(r) => *r,
+        _ => return,
+    };
+    let tampered = crate::faults::fingerprint(cx.msg, cx.accounts) != cx.msg.origin_fp && !cx.msg.origin_fp.is_empty();
+    let why = if cx.detail.sig_ok == Some(false) || refused == Rule::Signature {
+        "the presented signature is not the reference signature"
+    } else if refused == Rule::Provider {
+        "the provider supplied no key"
+    } else if tampered {
+        "the request was changed in flight (reference signing input differs from what was signed)"
+    } else {
+        return;
+    };
+    out.violate(
+        "C01",
+        "accept-implies-correct-signature",
+        format!(
+            "library accepted although {}; reference refuses at {} (expected signature {:?}, presented {:?}); {}",
+            why,
+            refused.name(),
+            cx.detail.expected_signature,
+            cx.detail.presented_signature,
+            ctx_line(cx)
+        ),
+    );
 }
 
 /// C02: every authentic, benign-only, in-window, right-node delivery is accepted.
@@ -84,6 +102,27 @@ pub fn judge_c02(cx: &DeliveryCtx, out: &mut RunOut) {
     tamper_probes(cx, out);
     if *cx.provenance == Expect::Accept && *cx.expected == Verdict::Accept && finished(cx) && !cx.out.is_ok() {
         out.violate("C02", "authentic-request-accepted", format!("reference-signed request refused: {}; {}", cx.out.short(), ctx_line(cx)));
+    }
+}
+
+/// Earliest documented position of the rule(s) the library's refusal belongs to (None when the
+/// message is not recognised or the outcome is not an error).
+fn lib_stage(cx: &DeliveryCtx) -> Option<u32> {
+    let e = cx.out.err()?;
+    classify(e).iter().filter_map(|r| r.precedence()).min()
+}
+
+/// The fault under study is isolated: the message as issued, canonically spelled, delivered home at
+/// its own instant with an immediate provider, is accepted by the library (when the profile ran
+/// that baseline). If even that fails, something else is broken and it is not this check's call.
+fn baseline_ok(cx: &DeliveryCtx, out: &mut RunOut) -> bool {
+    match cx.baseline {
+        None => true,
+        Some(b) if b.is_ok() => true,
+        Some(_) => {
+            out.probe("baseline_refused_delivery_not_judged");
+            false
+        }
     }
 }
 
@@ -107,12 +146,17 @@ pub fn judge_c03(cx: &DeliveryCtx, out: &mut RunOut) {
             out.probe("misroute");
         }
     }
+    let arity_pos = Rule::Arity.precedence().unwrap();
+    // jurisdiction: the library got as far as the credential checks (or accepted)
+    let at_or_after_scope = cx.out.is_ok() || lib_stage(cx).map(|s| s >= arity_pos).unwrap_or(false);
     match cx.expected {
         Verdict::Refuse(Rule::Arity) => {
             out.probe("scope_arity");
-            match cx.out.err() {
-                Some(e) if e.kind == "IncompleteSignature" && e.status == 400 => {}
-                _ => out.violate("C03", "arity-is-incomplete-signature-400", format!("credential without five parts gave {}; {}", cx.out.short(), ctx_line(cx))),
+            if at_or_after_scope {
+                match cx.out.err() {
+                    Some(e) if e.kind == "IncompleteSignature" && e.status == 400 && is_class(cx, Rule::Arity) != Some(false) => {}
+                    _ => out.violate("C03", "arity-is-incomplete-signature-400", format!("credential without five parts gave {}; {}", cx.out.short(), ctx_line(cx))),
+                }
             }
             if provider_calls(cx) != 0 {
                 out.violate("C03", "no-key-lookup-for-bad-scope", format!("provider called for a credential of wrong arity; {}", ctx_line(cx)));
@@ -126,12 +170,23 @@ pub fn judge_c03(cx: &DeliveryCtx, out: &mut RunOut) {
             if cx.msg.auth.service != cx.node.cfg.service && (cx.node.cfg.service.starts_with(&cx.msg.auth.service) || cx.msg.auth.service.starts_with(&cx.node.cfg.service) || cx.msg.auth.service.eq_ignore_ascii_case(&cx.node.cfg.service)) {
                 out.probe("scope_near_miss_service");
             }
-            match cx.out.err() {
-                Some(e) if e.kind == "SignatureDoesNotMatch" && e.status == 403 => {}
-                _ => out.violate("C03", "scope-mismatch-is-403", format!("foreign-scope credential gave {}; {}", cx.out.short(), ctx_line(cx))),
+            if cx.detail.sig_ok == Some(true) {
+                out.probe("foreign_scope_correctly_signed");
+            }
+            if at_or_after_scope {
+                match cx.out.err() {
+                    Some(e) if e.kind == "SignatureDoesNotMatch" && e.status == 403 && is_class(cx, Rule::Scope) != Some(false) => {}
+                    _ => out.violate("C03", "scope-mismatch-is-403", format!("foreign-scope credential gave {}; {}", cx.out.short(), ctx_line(cx))),
+                }
             }
             if provider_calls(cx) != 0 {
                 out.violate("C03", "no-key-lookup-for-bad-scope", format!("provider called for an out-of-scope credential; {}", ctx_line(cx)));
+            }
+        }
+        Verdict::Accept | Verdict::Refuse(Rule::Provider | Rule::Signature) => {
+            // a credential that is in scope is never refused for its scope
+            if is_class(cx, Rule::Arity) == Some(true) || is_class(cx, Rule::Scope) == Some(true) {
+                out.violate("C03", "in-scope-credential-not-refused-for-scope", format!("credential is in scope, library says {}; {}", cx.out.short(), ctx_line(cx)));
             }
         }
         _ => {}
@@ -150,14 +205,9 @@ pub fn judge_c03(cx: &DeliveryCtx, out: &mut RunOut) {
                         out.probe("t_day_rollover");
                     }
                 }
+                // no query expected at all: whether the provider may be consulted is C14's matter
+                None => {}
                 other => out.violate("C03", "provider-asked-for-exact-scope", format!("provider saw {:?}, reference expects {:?}; {}", query, other, ctx_line(cx))),
-            }
-        }
-    }
-    if cx.out.is_ok() {
-        if let Verdict::Refuse(r) = cx.expected {
-            if matches!(r, Rule::Arity | Rule::Scope) {
-                out.violate("C03", "success-implies-scope", format!("accepted although the reference refuses at {}; {}", r.name(), ctx_line(cx)));
             }
         }
     }
@@ -172,6 +222,9 @@ pub fn judge_c04(cx: &DeliveryCtx, out: &mut RunOut) {
     if nanos != 0 {
         out.probe("t_subsecond");
     }
+    // jurisdiction: the library got as far as the freshness check (or accepted)
+    let exp_pos = Rule::Expired.precedence().unwrap();
+    let reached = cx.out.is_ok() || lib_stage(cx).map(|s| s >= exp_pos).unwrap_or(false);
     match cx.expected {
         Verdict::Refuse(r @ (Rule::Expired | Rule::NotYetValid)) => {
             out.probe(if *r == Rule::Expired {
@@ -179,21 +232,37 @@ pub fn judge_c04(cx: &DeliveryCtx, out: &mut RunOut) {
             } else {
                 "refused_not_yet_valid"
             });
-            let ok = match cx.out.err() {
-                Some(e) => e.kind == "SignatureDoesNotMatch" && e.status == 403 && is_class(cx, *r) != Some(false),
-                None => false,
-            };
-            if !ok {
-                out.violate("C04", "outside-window-refused", format!("t−now = {} ns, reference says {}, library says {}; {}", cx.msg.auth.instant_ns - cx.now_ns, r.name(), cx.out.short(), ctx_line(cx)));
-            }
-            if provider_calls(cx) != 0 {
-                out.violate("C04", "refused-before-key-lookup", format!("provider called for a request outside the window; {}", ctx_line(cx)));
+            if reached {
+                let ok = match cx.out.err() {
+                    Some(e) => e.kind == "SignatureDoesNotMatch" && e.status == 403 && is_class(cx, *r) != Some(false),
+                    None => false,
+                };
+                if !ok {
+                    out.violate("C04", "outside-window-refused", format!("t−now = {} ns, reference says {}, library says {}; {}", cx.msg.auth.instant_ns - cx.now_ns, r.name(), cx.out.short(), ctx_line(cx)));
+                }
+                if provider_calls(cx) != 0 {
+                    out.violate("C04", "refused-before-key-lookup", format!("provider called for a request outside the window; {}", ctx_line(cx)));
+                }
             }
         }
         Verdict::Accept | Verdict::Refuse(Rule::Arity | Rule::Scope | Rule::Provider | Rule::Signature) => {
             out.probe("inside_window_reached");
             if is_class(cx, Rule::Expired) == Some(true) || is_class(cx, Rule::NotYetValid) == Some(true) {
                 out.violate("C04", "inside-window-never-time-refused", format!("t−now = {} ns is inside the window but the library says {}; {}", cx.msg.auth.instant_ns - cx.now_ns, cx.out.short(), ctx_line(cx)));
+            } else if *cx.expected == Verdict::Accept && cx.out.err().is_some() {
+                // "inside the window the timestamp alone never causes rejection": the clock twin —
+                // the very same request validated with the server clock *at* the request instant.
+                // If that is accepted while this in-window delivery is refused, the only thing that
+                // differs is the server time.
+                if let (Some(t0), Ok(req)) = (cx.detail.instant, cx.wire.to_request()) {
+                    if t0 != cx.now_ns {
+                        let twin = libi::validate_control(req, cx.node, t0, cx.accounts, cx.script, 0);
+                        out.probe("clock_twin_compared");
+                        if twin.is_ok() {
+                            out.violate("C04", "inside-window-clock-alone-never-refuses", format!("t−now = {} ns is inside the window and the library refuses with {}, but accepts the identical request when the server clock equals the request instant; {}", cx.msg.auth.instant_ns - cx.now_ns, cx.out.short(), ctx_line(cx)));
+                        }
+                    }
+                }
             }
         }
         _ => {}
@@ -210,6 +279,11 @@ pub fn judge_c05(cx: &DeliveryCtx, out: &mut RunOut) {
     } else {
         out.probe("req_slice_impl");
     }
+    if !baseline_ok(cx, out) {
+        return;
+    }
+    let req_pos = Rule::Requirement.precedence().unwrap();
+    let reached = cx.out.is_ok() || lib_stage(cx).map(|s| s >= req_pos).unwrap_or(false);
     match cx.expected {
         Verdict::Refuse(Rule::Requirement) => {
             out.probe("requirement_refusal_expected");
@@ -218,12 +292,14 @@ pub fn judge_c05(cx: &DeliveryCtx, out: &mut RunOut) {
                     out.probe(&format!("req[{}]", s.kind));
                 }
             }
-            let ok = match cx.out.err() {
-                Some(e) => e.kind == "SignatureDoesNotMatch" && e.status == 403 && is_class(cx, Rule::Requirement) != Some(false),
-                None => false,
-            };
-            if !ok {
-                out.violate("C05", "missing-required-signed-header-refused", format!("requirements always={:?} cond={:?} prefixes={:?} signed={:?}: library says {}; {}", cx.node.cfg.always, cx.node.cfg.cond, cx.node.cfg.prefixes, cx.detail.signed_headers, cx.out.short(), ctx_line(cx)));
+            if reached {
+                let ok = match cx.out.err() {
+                    Some(e) => e.kind == "SignatureDoesNotMatch" && e.status == 403 && is_class(cx, Rule::Requirement) != Some(false),
+                    None => false,
+                };
+                if !ok {
+                    out.violate("C05", "missing-required-signed-header-refused", format!("requirements always={:?} cond={:?} prefixes={:?} signed={:?}: library says {}; {}", cx.node.cfg.always, cx.node.cfg.cond, cx.node.cfg.prefixes, cx.detail.signed_headers, cx.out.short(), ctx_line(cx)));
+                }
             }
         }
         Verdict::Accept | Verdict::Refuse(Rule::DateFormat | Rule::Expired | Rule::NotYetValid | Rule::Arity | Rule::Scope | Rule::Provider | Rule::Signature) => {
@@ -465,20 +541,41 @@ pub fn judge_canonical(cx: &DeliveryCtx, out: &mut RunOut, only: &[&'static str]
     out.violate(which, clause, format!("canonical request differs at line {}: library {:?} vs reference {:?}; {}", line + 1, a.get(line).map(|x| show_bytes(x)), b.get(line).map(|x| show_bytes(x)), ctx_line(cx)));
 }
 
-/// Accept/refuse agreement in a workload dedicated to one component (C09–C12, C19).
+/// Verdict clauses of a check dedicated to one component (C09–C12, C19). Jurisdiction: the
+/// baseline of the same message is accepted, and the disagreement concerns this component's own
+/// refusal rule(s) — or, with `all`, any accept/refuse disagreement (for profiles whose only
+/// difference from the baseline is the fault under study). Disagreements on the canonical bytes
+/// themselves are `judge_canonical`'s.
 pub fn judge_agreement(cx: &DeliveryCtx, out: &mut RunOut, property: &'static str, clause: &'static str) {
-    if !finished(cx) {
+    judge_component(cx, out, property, clause, &[], true)
+}
+
+pub fn judge_component(cx: &DeliveryCtx, out: &mut RunOut, property: &'static str, clause: &'static str, own: &[Rule], with_signature: bool) {
+    if !finished(cx) || !baseline_ok(cx, out) {
         return;
     }
+    // the rules whose verdicts this component decides: its own refusal rule(s) and, when the
+    // profile keeps every other component in its baseline spelling, the signature comparison
+    let mine = |r: &Rule| own.contains(r) || (with_signature && *r == Rule::Signature);
+    let lib_mine = cx.out.err().map(|e| classify(e).iter().any(|r| mine(r))).unwrap_or(false);
     match cx.expected {
         Verdict::Accept => {
-            if !cx.out.is_ok() {
+            if lib_mine {
                 out.violate(property, clause, format!("reference accepts, library says {}; {}", cx.out.short(), ctx_line(cx)));
             }
         }
         Verdict::Refuse(r) => {
             if cx.out.is_ok() {
-                out.violate(property, clause, format!("reference refuses at {}, library accepts; {}", r.name(), ctx_line(cx)));
+                if mine(r) {
+                    out.violate(property, clause, format!("reference refuses at {}, library accepts; {}", r.name(), ctx_line(cx)));
+                }
+            } else if own.contains(r) != cx.out.err().map(|e| classify(e).iter().any(|x| own.contains(x))).unwrap_or(false) {
+                // the component's own refusal rule fired on one side only — unless the library
+                // stopped at an earlier documented rule, which is not this component's business
+                let earlier = lib_stage(cx).zip(r.precedence()).map(|(s, p)| s < p).unwrap_or(false);
+                if !earlier || !own.contains(r) {
+                    out.violate(property, clause, format!("reference refuses at {}, library says {}; {}", r.name(), cx.out.short(), ctx_line(cx)));
+                }
             }
         }
         Verdict::Unspecified(_) => {}
@@ -515,8 +612,10 @@ pub fn judge_c12(cx: &DeliveryCtx, out: &mut RunOut) {
             _ => out.violate("C12", "undecodable-body-is-invalid-body-encoding-400", format!("reference: {}, library: {}; {}", r.name(), cx.out.short(), ctx_line(cx))),
         }
     }
-    judge_agreement(cx, out, "C12", "fold-merges-losslessly-else-body-hashed");
-    judge_canonical(cx, out, &["C10", "C12"]);
+    judge_component(cx, out, "C12", "fold-merges-losslessly-else-body-hashed", &[Rule::BodyCharset, Rule::BodyEncoding], false);
+    if baseline_ok(cx, out) {
+        judge_canonical(cx, out, &["C12"]);
+    }
 }
 
 /// C14: the call protocol, monitored over the recorded history of one validation.
@@ -543,29 +642,33 @@ pub fn judge_c14(cx: &DeliveryCtx, out: &mut RunOut) {
             _ => {}
         }
     }
-    // zero provider interaction when an earlier rule fails
-    let pre_provider_failure = match cx.expected {
-        Verdict::Refuse(r) => !matches!(r, Rule::Provider | Rule::Signature),
-        _ => false,
-    };
+    // No provider interaction for a request the library itself refuses at an earlier rule: the
+    // clause is about *order* (consulted last), so it is judged against the library's own refusal,
+    // not against the reference verdict (whether that refusal is the right one is another
+    // property's matter).
     let touched = cx.events.iter().any(|e| matches!(e.kind, EvKind::Call { .. } | EvKind::PollReady { .. }));
-    if pre_provider_failure {
-        out.probe("defective_request_with_provider_watching");
-        if touched {
-            out.violate("C14", "provider-untouched-by-defective-requests", format!("reference refuses at {:?} yet the provider was consulted ({} calls); {}", cx.expected, calls, ctx_line(cx)));
+    let prov_pos = Rule::Provider.precedence().unwrap();
+    let provider_failed = cx.events.iter().any(|e| matches!(e.kind, EvKind::FutPoll { result: "err" } | EvKind::PollReady { result: "err" }));
+    if let (Some(stage), false) = (lib_stage(cx), provider_failed) {
+        // (when the provider itself failed, the refusal is the provider's own error passed through)
+        if stage < prov_pos {
+            out.probe("defective_request_with_provider_watching");
+            if touched {
+                out.violate("C14", "provider-untouched-by-defective-requests", format!("the library refuses with {} (a check that comes before key lookup) yet the provider was consulted ({} calls); {}", cx.out.short(), calls, ctx_line(cx)));
+            }
         }
     }
     if !finished(cx) {
         return;
     }
-    // provider errors pass through / wrap
+    // provider errors pass through / wrap: judged on what the provider actually answered to this
+    // validation (recorded history), not on what the reference expected to happen
     let prov_err: Option<&Answer> = match (&cx.script.ready_err, &cx.script.answer) {
         (Some(a), _) => Some(a),
         (None, a @ (Answer::SigErr(_) | Answer::Foreign(_))) => Some(a),
         _ => None,
     };
-    let reached_provider = matches!(cx.expected, Verdict::Refuse(Rule::Provider));
-    if reached_provider {
+    if provider_failed {
         if cx.out.is_ok() {
             out.violate("C14", "provider-failure-never-authenticates", format!("provider failed but validation succeeded; {}", ctx_line(cx)));
         }
@@ -602,7 +705,7 @@ pub fn judge_c14(cx: &DeliveryCtx, out: &mut RunOut) {
         if prov_err.is_none() {
             // key store refusal (unknown key / bad token)
             match cx.out.err() {
-                Some(e) if e.kind == "InvalidClientTokenId" || e.kind == "ExpiredToken" => out.probe("prov_keystore_refusal"),
+                Some(e) if (e.kind == "InvalidClientTokenId" || e.kind == "ExpiredToken") && e.display.starts_with(libi::PROVIDER_MSG_PREFIX) => out.probe("prov_keystore_refusal"),
                 _ => out.violate("C14", "signature-error-passes-through-unchanged", format!("key store refused, caller got {}; {}", cx.out.short(), ctx_line(cx))),
             }
         }
